@@ -446,3 +446,44 @@ def all_resizes(case: dict, alts: int = 2) -> list[dict]:
                 set_value(c, it["path"], nv)
                 out.append(c)
     return out
+
+
+def returns_argument_cases(rnd: random.Random, n: int) -> list[dict]:
+    """f(x: H1) -> H2 whose body returns x itself; H2 is H1 or a one-step variation of it (a `*g` turned into a plain `g`
+    or the other way round, a renamed / dropped / added axis, another literal, another class), and x conforms to H1 with any
+    rank its marker allows.  The return value is the argument object, so whatever H2 demands is demanded of the same array."""
+    out = []
+    while len(out) < n:
+        nd = rnd.choice([1, 2, 2, 3])
+        names = rnd.sample(["a", "b", "c", "g"], nd)
+        marker = rnd.randrange(nd) if rnd.random() < 0.6 else None
+        d1 = [("*" + x if i == marker else x) for i, x in enumerate(names)]
+        sizes, shape = {}, []
+        for i, x in enumerate(names):
+            if i == marker:
+                k = rnd.choice([0, 1, 2, 3])
+                shape += [rnd.choice([1, 2, 3]) for _ in range(k)]
+            else:
+                sizes[x] = rnd.choice([1, 2, 3, 5])
+                shape.append(sizes[x])
+        d2 = list(d1)
+        how = rnd.choice(["same", "unstar", "star", "rename", "drop", "add", "literal"])
+        j = rnd.randrange(nd)
+        if how == "unstar" and marker is not None:
+            d2[marker] = names[marker]
+        elif how == "star" and marker is None:
+            d2[j] = "*" + names[j]
+        elif how == "rename":
+            d2[j] = rnd.choice([x for x in ["a", "b", "c", "g", "zz"] if x != names[j]]) if not d2[j].startswith("*") else d2[j]
+        elif how == "drop" and nd > 1:
+            d2.pop(j)
+        elif how == "add":
+            d2.insert(j, rnd.choice(["a", "2", "q"]))
+        elif how == "literal" and not d2[j].startswith("*"):
+            d2[j] = str(rnd.choice([1, 2, 3, 5]))
+        if sum(1 for t in d2 if t.startswith("*")) > 1:
+            continue
+        c = _mk_sig([("x", " ".join(d1))], [tuple(shape)], ret=" ".join(d2), retval=tuple(shape))
+        c["retval_same_as"] = "x"
+        out.append(c)
+    return out
